@@ -1159,6 +1159,21 @@ func (fc *fnCtx) enterLoop(li *loopInfo, st *State) {
 		et := g.Type().(*types.Pointer).Elem()
 		st.globs[g] = fc.defs.Declare("G."+g.Name()+".l", fc.S().SortOf(et))
 	}
+	defer func() {
+		// values held in havocked cells were allocated before the current watermark
+		for _, a := range sortedAllocs(cells) {
+			et := a.Type().(*types.Pointer).Elem()
+			v := st.cells[a]
+			if v == "" {
+				continue
+			}
+			if isPointer(et) {
+				fc.assume(st, fmt.Sprintf("(< %s %s)", v, st.alloc))
+			} else if isSliceT(et) {
+				fc.assume(st, fmt.Sprintf("(< (sl.base %s) %s)", v, st.alloc))
+			}
+		}
+	}()
 	if all {
 		old := st.alloc
 		wasFramed := st.heapBase == fc.entryBase() || fc.top.framedBases[st.heapBase]
